@@ -328,6 +328,7 @@ pub fn eval_amount(
             Term::Fees => (None, fee?),
             Term::MinUtxo(_) => (None, min_utxo?),
             Term::Input(_) => return None,
+            Term::AdaField(_) => return None,
             Term::Local(..) => unreachable!(),
         };
         let e = v.entry(key).or_insert(0i128);
@@ -577,9 +578,24 @@ pub fn check_selection(
     }
 }
 
+thread_local! {
+    /// the template under resolution has no collateral block but a *regular* input called
+    /// `collateral` (tx3 has no reserved words): the binding under that name is a regular one
+    pub static COLLATERAL_IS_A_REGULAR_INPUT: std::cell::Cell<bool> = const { std::cell::Cell::new(false) };
+}
+
+/// the key under which the collateral block's binding is filed (none when the name belongs to a regular input)
+fn collateral_key() -> &'static str {
+    if COLLATERAL_IS_A_REGULAR_INPUT.with(|c| c.get()) {
+        "\u{0}no-collateral-block"
+    } else {
+        "collateral"
+    }
+}
+
 /// D1 of C04: bindings of distinct non-collateral blocks are pairwise disjoint.
 pub fn check_disjoint(rep: &mut crate::core::WorldReport, bindings: &BTreeMap<String, Vec<Utxo>>, ctx: &str) {
-    let names: Vec<&String> = bindings.keys().filter(|n| n.as_str() != "collateral").collect();
+    let names: Vec<&String> = bindings.keys().filter(|n| n.as_str() != collateral_key()).collect();
     for (i, a) in names.iter().enumerate() {
         for b in names.iter().skip(i + 1) {
             let sa: BTreeSet<RefKey> = bindings[*a].iter().map(|u| rk(&u.r#ref)).collect();
@@ -606,7 +622,7 @@ pub fn check_body_inputs(
 ) {
     let mut want: Vec<RefKey> = bindings
         .iter()
-        .filter(|(n, _)| n.as_str() != "collateral")
+        .filter(|(n, _)| n.as_str() != collateral_key())
         .flat_map(|(_, v)| v.iter().map(|u| rk(&u.r#ref)))
         .collect();
     want.sort();
@@ -633,7 +649,7 @@ pub fn check_body_inputs(
             ),
         );
     }
-    if let Some(c) = bindings.get("collateral") {
+    if let Some(c) = bindings.get(collateral_key()) {
         let mut wantc: Vec<RefKey> = c.iter().map(|u| rk(&u.r#ref)).collect();
         wantc.sort();
         let mut gotc = d.collateral.clone().unwrap_or_default();
@@ -1153,6 +1169,25 @@ pub fn expected_outputs(
                         }
                         sum
                     }
+                    Term::AdaField(name) => {
+                        // the datum's first field of the one UTxO bound to that input
+                        let sel = bindings.get(&name.to_lowercase())?;
+                        if sel.len() != 1 {
+                            return None;
+                        }
+                        let n = match &sel[0].datum {
+                            Some(tir::Expression::Struct(st)) => match st.fields.first() {
+                                Some(tir::Expression::Number(n)) => *n,
+                                _ => return None,
+                            },
+                            _ => return None,
+                        };
+                        let mut one = Value::new();
+                        if n != 0 {
+                            one.insert(None, n);
+                        }
+                        one
+                    }
                     Term::MinUtxo(_) => return None,
                     other => eval_amount(p, &Amount(vec![(false, other.clone())]), args, Some(fee), None)?,
                 };
@@ -1197,6 +1232,25 @@ pub fn check_echo_outputs(
                         }
                     }
                     sum
+                }
+                Term::AdaField(name) => {
+                    // the datum's first field of the one UTxO bound to that input
+                    let sel = bindings.get(&name.to_lowercase())?;
+                    if sel.len() != 1 {
+                        return None;
+                    }
+                    let n = match &sel[0].datum {
+                        Some(tir::Expression::Struct(st)) => match st.fields.first() {
+                            Some(tir::Expression::Number(n)) => *n,
+                            _ => return None,
+                        },
+                        _ => return None,
+                    };
+                    let mut one = Value::new();
+                    if n != 0 {
+                        one.insert(None, n);
+                    }
+                    one
                 }
                 Term::MinUtxo(_) => return None,
                 other => eval_amount(p, &Amount(vec![(false, other.clone())]), args, Some(d.fee), None)?,
